@@ -289,21 +289,49 @@ def run_chunk(spec, binp, lines, workdir, tag, timeout):
 
 
 def run_driver(spec, binp, lines, workdir, name, tier):
-    """Run a driver over all its case lines, sharded; crashed shards are re-run case by case when
-    the driver is marked isolate (a crash then becomes the per-case result 'CRASH ...')."""
+    """Run a driver over all its case lines, sharded; in crashed shards of a driver marked isolate the
+    crashing cases are singled out (each becomes the per-case result 'CRASH ...')."""
     if not lines:
         return [], None
     timeout = spec.get("timeout", 600 if tier == "quick" else 3000)
     nshard = max(1, min(spec.get("shards", NCPU), (len(lines) + spec.get("min_chunk", 50) - 1) // spec.get("min_chunk", 50)))
     chunks = [lines[i::nshard] for i in range(nshard)]
 
+    def one_by_one(i, ls):
+        res = []
+        for l in ls:
+            r1, e1 = run_chunk(spec, binp, [l], workdir, f"{name}.{i}.one", spec.get("case_timeout", 60))
+            res.append(r1[0] if r1 is not None else "CRASH " + " ".join((e1 or "").split())[:300])
+        return res
+
+    def isolate(i, ls, tag):
+        """A shard crashed. If the driver flushes its output per case, the lines it managed to write
+        locate the culprit: confirm it alone, keep the lines before it, go on with the rest (one
+        process per crash instead of one per case). Otherwise fall back to case-by-case."""
+        out, rest = [], list(ls)
+        while rest:
+            cout = os.path.join(workdir, f"out.{tag}.txt")
+            partial = open(cout).read().split("\n")[:-1] if os.path.exists(cout) else []
+            k = len(partial)
+            if k >= len(rest):
+                return out + one_by_one(i, rest)
+            r1, e1 = run_chunk(spec, binp, [rest[k]], workdir, f"{name}.{i}.one", spec.get("case_timeout", 60))
+            if r1 is not None:                      # not the culprit: output was buffered / crash not reproducible alone
+                return out + one_by_one(i, rest)
+            out += partial + ["CRASH " + " ".join((e1 or "").split())[:300]]
+            rest = rest[k + 1:]
+            if not rest:
+                break
+            tag = f"{name}.{i}.iso"
+            res, err = run_chunk(spec, binp, rest, workdir, tag, timeout)
+            if res is not None:
+                return out + res
+        return out
+
     def work(i):
         res, err = run_chunk(spec, binp, chunks[i], workdir, f"{name}.{i}", timeout)
         if res is None and spec.get("isolate"):
-            res = []
-            for j, l in enumerate(chunks[i]):
-                r1, e1 = run_chunk(spec, binp, [l], workdir, f"{name}.{i}.one", spec.get("case_timeout", 60))
-                res.append(r1[0] if r1 is not None else "CRASH " + " ".join((e1 or "").split())[:300])
+            res = isolate(i, chunks[i], f"{name}.{i}")
             err = None
         return res, err
 
